@@ -19,7 +19,7 @@ FORMATS = ["vtl", "sdmx_reporting", "sdmx_gregorian", "natural"]
 POOLS = {
     "Integer": [0, 1, -1, 2, 3, -5, 63, 64, 400, 1000000, 3037000500, 4611686018427387904, -4611686018427387904, None],
     "Number": [0.0, 1.5, -2.5, 0.1, 710.0, -710.0, 1e15, 1e154, 1e308, -1e308, 1e-320, 123456789.123456789, -1e-9, 2.0, None],
-    "String": ["", "abc", "(", "[a-", "a{2", "\\", "%", "_", "'", "''", '"', "x" * 300, "2020-01-01", "2020Q1", "2020-13-45", "12", "1.5", "-0", "true", "NaN", "inf", "1e999", " ", "ü€", "99999999999999999999", "A", None],
+    "String": ["", "abc", "(", "[a-", "a{2", "\\", "%", "_", "'", "''", '"', "x" * 300, "it's", "12'", "2020-01-01", "2020Q1", "2020-13-45", "12", "1.5", "-0", "true", "NaN", "inf", "1e999", " ", "ü€", "99999999999999999999", "A", None],
     "Boolean": [True, False, None],
     "Date": ["1800-01-01", "9999-12-31", "2020-02-29", "2020-12-31", "2021-01-03", "2020-01-15 10:30:00", "2000-01-01", None],
     "Time_Period": ["2020", "2020S2", "2020Q4", "2020M12", "2020W53", "2020D366", "9999M12", "2021W1", "1900Q1", "2020M1", None],
@@ -189,7 +189,7 @@ DATASET_LEVEL = [
     ("dpr", 'define datapoint ruleset dpr (variable Me_1, Id_2) is r1: when Id_2 = "a" then 1 / Me_1 > 0 errorcode "X" errorlevel 1; r2: sqrt(Me_1) >= 0 end datapoint ruleset; R <- check_datapoint(DS_N, dpr {out});'),
     ("hr check", 'define hierarchical ruleset hr (variable rule Id_2) is r1: a = b + c errorcode "h" errorlevel 2; r2: a >= b end hierarchical ruleset; R <- check_hierarchy(DS_N, hr rule Id_2 {hmode} {out});'),
     ("hierarchy", "define hierarchical ruleset hr (variable rule Id_2) is a = b + c; d = a - b end hierarchical ruleset; R <- hierarchy(DS_N, hr rule Id_2 {hmode} {hout});"),
-    ("multi scalar in clauses", "sc := {scalar_n}; A := DS_N[calc Me_x := Me_1 + sc]; B := DS_N[filter Me_1 > sc]; R <- A + B[calc Me_x := Me_1 / sc];"),
+    ("multi scalar in clauses", "sc := 2.5 + 1; A := DS_N[calc Me_x := Me_1 + sc]; B := DS_N[filter Me_1 > sc]; R <- A + B[calc Me_x := Me_1 / sc];"),
     ("multi chain", "A := DS_N * DS_N2; B := A / DS_N; C <- B[calc Me_x := sqrt(Me_1)]; R <- inner_join(C as c, DS_X as i calc Me_y := Me_1 / Me_9);"),
     ("multi reuse", "T := sum(DS_N group by Id_2); U := DS_N[aggr Me_x := max(Me_1) group by Id_2]; R <- T / T; S <- U[calc Me_z := ln(Me_x)];"),
     ("scalar", "R <- {scalar};"), ("scalar in ds", "R <- DS_N + {scalar_n};"),
